@@ -31,6 +31,15 @@ CHECKS = {
              'are exhausted, abandoned after k answers by close or drop, or kept suspended while other predicates are changed. Each op result and, '
              'after every op, the complete contents of all predicates are compared with a list model; any exception is a violation.',
         note='Ground facts only and no same-predicate mutation during an enumeration (those are C13/C14), so every reading of the statement gives the same lists. Trusts the 60-line list model.'),
+    'C13': dict(
+        category='exploration', design_ref='DESIGN.md section 4, C13',
+        technique='deterministic simulation: seeded binding-stack histories with assert at arbitrary points and several simultaneously suspended uses of the same fact, against a copy-semantics reference model',
+        text='A seeded scheduler drives a LIFO stack of open unifications and suspended uses of p/1, p/2 on the real engine and asserts terms over the '
+             'pool variables at arbitrary points (bound before, after, through chains, inside structures; four assert routes incl. compiled code '
+             'with the goal in a bound variable). Every answer of every use is compared with a model in which ASSERT stores the fully resolved term with '
+             'fact-local variables and each use renames it apart - over the pattern and over every pool variable, so any aliasing between a fact, its '
+             'uses and the asserting context is visible.',
+        note='A use starts at its first next(); frames end LIFO; matches that would need cyclic terms end the run without verdict. Trusts model unifier + 60-line store model.'),
     'C14': dict(
         category='exploration', design_ref='DESIGN.md section 4, C14',
         technique='deterministic simulation: seeded interleavings of suspended query/retract enumerations with mutations of the same predicate, against a logical-update-view snapshot model; bounded liveness by executed-line budget',
@@ -61,7 +70,7 @@ NOT_APPLICABLE = [
 ]
 
 PENDING = {p: 'claimed in DESIGN.md; its check is not built yet at this commit (work in progress), so nothing is claimed for it here' for p in
-           ['C04', 'C08', 'C13', 'C15', 'C17', 'C20']}   # property id -> reason, for claimed-in-design properties whose check is not built yet
+           ['C04', 'C08', 'C15', 'C17', 'C20']}   # property id -> reason, for claimed-in-design properties whose check is not built yet
 
 
 def main():
